@@ -378,6 +378,10 @@ def nj_lens(shape, variant):
         return lens_from_pattern(shape, 1.0)
     if variant == 0:
         return lens_from_pattern(shape, length_patterns()["dyadic"])
+    if variant == 3:
+        # lengths that need more than six decimal places (exact in binary): a text round trip has to carry all of them
+        dy = length_patterns()["dyadic"]
+        return lens_from_pattern(shape, lambda i, leaf: dy(i, leaf) + (i + 1) * 2.0 ** -24)
     return lens_from_pattern(shape, lambda i, leaf: (0.0 if i % 3 == 0 else 0.75) if leaf else [0.5, 1.25, 2.0][i % 3])
 
 
@@ -641,7 +645,9 @@ def t2(ctx):
                 for leaves in (LABELS[:n], list(reversed(LABELS[:n]))):
                     if n >= 6 and leaves != LABELS[:n]:
                         continue
-                    for variant in (0, 1, 2):
+                    for variant in (0, 1, 2, 3):
+                        if variant == 3 and (n > 4 or leaves != LABELS[:n]):
+                            continue
                         spec = {"shape": lst(v), "leaves": list(leaves), "rooted": False, "lens": nj_lens(v, variant), "ns": default_ns(n)}
                         for route in ("direct", "csv", "counts"):
                             if route == "counts" and variant != 2:
